@@ -57,7 +57,7 @@ theorem recover_valid (d : Dir) (i : Ident) (h : recover d = .valid i) :
 theorem identOfJS_some (js : JS) (i : Ident) (h : identOfJS js = some i) :
     hexN Consts.Ntor.nodeIDLength js.nodeID = some i.nodeID ∧
     hexN Consts.Ntor.privateKeyLength js.priv = some i.priv ∧
-    hexN Consts.Drbg.seedLength js.seed = some i.seed ∧
+    hexSeed js.seed = some i.seed ∧
     (Consts.Obfs4.iatNone : Int) ≤ js.iat ∧ js.iat ≤ (Consts.Obfs4.iatParanoid : Int) ∧ i.iat = js.iat.toNat := by
   unfold identOfJS at h
   cases h1 : hexN Consts.Ntor.nodeIDLength js.nodeID with
@@ -66,7 +66,7 @@ theorem identOfJS_some (js : JS) (i : Ident) (h : identOfJS js = some i) :
   cases h2 : hexN Consts.Ntor.privateKeyLength js.priv with
   | none => simp [h1, h2] at h
   | some b =>
-  cases h3 : hexN Consts.Drbg.seedLength js.seed with
+  cases h3 : hexSeed js.seed with
   | none => simp [h1, h2, h3] at h
   | some c =>
     simp only [h1, h2, h3] at h
@@ -92,7 +92,7 @@ theorem wf_recOfJS (js : JS) (i : Ident) (h : identOfJS js = some i) (hp : q ∉
     have : (Consts.Obfs4.iatNone : Int) = 0 := by decide
     omega
   have hle : js.iat.toNat ≤ Consts.Obfs4.iatParanoid := by omega
-  exact ⟨hexN_noq _ _ _ h1, hexN_noq _ _ _ h2, hp, hexN_noq _ _ _ h3, (iat_text _ hle).2⟩
+  exact ⟨hexN_noq _ _ _ h1, hexN_noq _ _ _ h2, hp, hexSeed_noq _ _ h3, (iat_text _ hle).2⟩
 
 /-- the state file written for a validated state loads back to that state -/
 theorem load_enc (js : JS) (i : Ident) (h : identOfJS js = some i) (hp : q ∉ js.pub) :
@@ -104,7 +104,7 @@ theorem load_enc (js : JS) (i : Ident) (h : identOfJS js = some i) (hp : q ∉ j
   have hle : js.iat.toNat ≤ Consts.Obfs4.iatParanoid := by omega
   obtain ⟨t1, t2⟩ := iat_text _ hle
   have w : WFRec (recOfJS js) :=
-    ⟨hexN_noq _ _ _ h1, hexN_noq _ _ _ h2, hp, hexN_noq _ _ _ h3, t2⟩
+    ⟨hexN_noq _ _ _ h1, hexN_noq _ _ _ h2, hp, hexSeed_noq _ _ h3, t2⟩
   unfold loadJS
   rw [parse_enc _ w]
   simp only [jsOfRec, recOfJS, t1]
@@ -136,6 +136,15 @@ theorem finish_ok (cfg : Cfg) (pre : List Op) (js : JS) (a : Option Bytes) (v : 
            ++ writeFile cfg.fixed sfN (encState (recOfJS { js with iat := v })), .ok i⟩ := by
   unfold finish; rw [h]; simp only [hi]
 
+/-- a refused `finish` performs nothing beyond what preceded it -/
+theorem finish_err_ops (cfg : Cfg) (pre : List Op) (js : JS) (a : Option Bytes)
+    (h : (finish cfg pre js a).out = .err) : (finish cfg pre js a).ops = pre := by
+  cases hch : iatChoice js a with
+  | none => rw [finish_err1 cfg pre js a hch]
+  | some v =>
+    cases hid : identOfJS { js with iat := v } with
+    | none => rw [finish_err2 cfg pre js a v hch hid]
+    | some i => rw [finish_ok cfg pre js a v i hch hid] at h; cases h
 /-- after a successful `finish` the state file holds the record of the presented identity -/
 theorem finish_ok_get (cfg : Cfg) (d : Dir) (pre : List Op) (C : Bytes) (L : Bytes) :
     get (run d (pre ++ writeFile cfg.fixed bfN L ++ writeFile cfg.fixed sfN C)) sfN = some C := by
